@@ -55,7 +55,7 @@ def nextest(crates, extra=""):
     txt = r.stdout
     fails = sorted(set(re.findall(r"^\s+FAIL \[[^\]]*\]\s*(?:\([^)]*\))?\s*(\S+ \S+)", txt, re.M)))
     summ = re.findall(r"Summary.*", txt)
-    berr = len(re.findall(r"^error", txt, re.M))
+    berr = len(re.findall(r"^error(\[E|: could not compile)", txt, re.M))
     return fails, (summ[-1].strip() if summ else ""), berr, txt
 
 
